@@ -259,7 +259,10 @@ def gen_stmt_tree(rng, depth=3, n=None):
         if r < 0.22:
             out.append(("importMod",) + tuple((rng.choice(MODS), rng.choice(ALIASES)) for _ in range(rng.choice([1, 1, 2, 3]))))
         elif r < 0.55:
-            out.append(("importFrom", rng.choice(MODS)) + tuple((rng.choice(NAMES), rng.choice(ALIASES)) for _ in range(rng.choice([1, 1, 2, 3]))))
+            # one in five is a relative import (`from .m import n`, `from ..m import n`, `from . import n`): never what a stub
+            # imports, even when the dotted tail is the module of a moved item
+            rel = rng.choice(["", "", "", "", rng.choice([".", "..", None])])
+            out.append(("importFrom", "." if rel is None else rel + rng.choice(MODS)) + tuple((rng.choice(NAMES), rng.choice(ALIASES)) for _ in range(rng.choice([1, 1, 2, 3]))))
         elif r < 0.6:
             out.append(("importStar", rng.choice(MODS)))
         elif r < 0.8 or depth == 0:
@@ -304,9 +307,9 @@ def source_to_stmts(text):
                 out.append(("importMod",) + tuple((a.name, a.asname) for a in n.names))
             elif isinstance(n, ast.ImportFrom):
                 if any(a.name == "*" for a in n.names):
-                    out.append(("importStar", n.module))
+                    out.append(("importStar", "." * n.level + (n.module or "")))
                 else:
-                    out.append(("importFrom", n.module) + tuple((a.name, a.asname) for a in n.names))
+                    out.append(("importFrom", "." * n.level + (n.module or "")) + tuple((a.name, a.asname) for a in n.names))
             elif isinstance(n, ast.Assign):
                 out.append(("other", n.value.value))
             elif isinstance(n, ast.Pass):
